@@ -1,7 +1,58 @@
+(* C36: the HTTP/2 priority tree stays acyclic and priority processing terminates.  Property theorems only.
+   Vocabulary (model/H2Prio.v): a state holds every stream object ever created (`nodes`), the key set of
+   sc.streams (`opn`), the parent pointer `par x` and weight of each object.  `reach par x z` = z is reached
+   from x by following one or more parent pointers; `acyclic par` = no x with `reach par x x`.
+   `pstep s o` is one operation (open a stream / closeStream / adjustStreamPriority), returning None exactly
+   when the ancestor walk inside adjustStreamPriority has not finished after |nodes| iterations. *)
 From Coq Require Import List ZArith Bool.
-From Bfe Require Import lib.Val model.H2Prio run.RunC36.
+From Bfe Require Import lib.Val lib.ValProofs model.H2Prio proofs.H2PrioProofs run.RunC36.
 Import ListNotations.
 Open Scope Z_scope.
-Example C36_placeholder : walk (fun x => if x =? 2 then Some 1 else None) 5 (Some 2) 1 = Some true.
-Proof. exact walk_ex. Qed.
-Print Assumptions C36_placeholder.
+
+(* adjustStreamPriority itself, on ANY acyclic parent map (open set, fuel, arguments arbitrary): whenever the
+   call returns, the new parent map is acyclic.  Covers the three cases plain re-parent, re-parent under a
+   descendant (the descendant is first moved to the stream's old parent) and exclusive re-parenting. *)
+Theorem C36_adjust_acyclic : forall isopen par fuel sid dep excl par',
+  acyclic par -> adjust_par isopen par fuel sid dep excl = Some par' -> acyclic par'.
+Proof. exact adjust_par_acyclic. Qed.
+Print Assumptions C36_adjust_acyclic.
+
+(* One step of any kind from a well-formed state (edges inside nodes, open streams are nodes, acyclic):
+   the step completes (the walk needs at most |nodes| iterations) and the result is again well-formed. *)
+Theorem C36_acyclic_preserved : forall s o,
+  wfp s -> exists s', pstep s o = Some s' /\ wfp s'.
+Proof. exact pstep_wfp. Qed.
+Print Assumptions C36_acyclic_preserved.
+
+(* For every history of stream creations, closes, PRIORITY frames and prioritised HEADERS starting from an
+   empty connection: no stream is its own ancestor ... *)
+Theorem C36_no_stream_own_ancestor : forall s x, preach s -> ~ reach (par s) x x.
+Proof. exact no_stream_own_ancestor. Qed.
+Print Assumptions C36_no_stream_own_ancestor.
+
+(* ... and the next priority update terminates (the fuel-bounded walk never reports exhaustion). *)
+Theorem C36_walk_terminates : forall s o, preach s -> pstep s o <> None.
+Proof. exact priority_processing_terminates. Qed.
+Print Assumptions C36_walk_terminates.
+
+(* The walk lemma on its own: on an acyclic map whose edges stay inside `nodes`, the ancestor walk started at
+   a node answers within |nodes| iterations. *)
+Theorem C36_walk_fuel_suffices : forall nodes par p st,
+  acyclic par -> closed_in nodes par -> (forall x, p = Some x -> In x nodes) ->
+  walk par (length nodes) p st <> None.
+Proof. exact walk_terminates. Qed.
+Print Assumptions C36_walk_fuel_suffices.
+
+(* The executable property the harness evaluates on the implementation's tables (one table per operation,
+   every table's parent chains end at nil) holds of the model on every operation list. *)
+Theorem C36_prop_of_model : forall ops, prop_C36 (enc_ops ops) (run_C36 (enc_ops ops)) = true.
+Proof. exact prop_C36_of_model. Qed.
+Print Assumptions C36_prop_of_model.
+
+(* Non-vacuity: a history that re-parents stream 1 under its grandchild 5 (5 moves to the root first), closes 3
+   and then makes 5 exclusive child of the root; the (id,parent) tables after every step. *)
+Example C36_example_history :
+  option_map (map (map (fun r => let '(x, p, _, _) := r in (x, p)))) (prun pst0 ex_ops) =
+  Some [ [(1,0)]; [(3,0);(1,0)]; [(5,0);(3,0);(1,0)]; [(5,0);(3,1);(1,0)]; [(5,3);(3,1);(1,0)];
+         [(5,0);(3,1);(1,5)]; [(5,0);(3,1);(1,5)]; [(5,0);(3,1);(1,5)] ].
+Proof. exact ex_ops_run. Qed.
